@@ -1,6 +1,7 @@
 """C17 - Python objects survive dump / unsafe load as pickle (vocabulary-agreement clauses)."""
 import sys
 
+from sa import rules_r6 as R6
 from sa import report, rules_repr as RR2, rules_registry as RR, rules_order as RO
 from sa import rules_extra as RX
 
@@ -16,18 +17,20 @@ def run(ctx, repo):
         'objects (R-ALIAS-KEY); the recursion guard that turns cycles through arguments/__setstate__ into ConstructorError '
         '(R-CONSTRUCT-CACHE).')
     ctx.trust('CPython ast; sa.tables registry folding')
-    RR2.r_tag_vocab(ctx, repo, ['dumper.Dumper', 'cyaml.CDumper'], ['loader.UnsafeLoader', 'loader.Loader',
+    ctx.call(RR2.r_tag_vocab, repo, ['dumper.Dumper', 'cyaml.CDumper'], ['loader.UnsafeLoader', 'loader.Loader',
                                                                      'cyaml.CUnsafeLoader', 'cyaml.CLoader'], 'R-TAG-VOCAB-PYTHON')
-    RR2.r_field_vocab(ctx, repo)
-    RR2.r_state_applied(ctx, repo)
-    RR.r_table_closed(ctx, repo, RR.table_groups_full() + [
+    ctx.call(RR2.r_field_vocab, repo)
+    ctx.call(RR2.r_state_applied, repo)
+    ctx.call(RR.r_table_closed, repo, RR.table_groups_full() + [
         ('unsafe', RR.UNSAFE_LOADERS, RR.CORE_TAGS | {None} | RR.FULL_EXTRA, RR.UNSAFE_MULTI)])
-    RR2.r_alias_key(ctx, repo)
-    RO.r_construct_cache(ctx, repo)
-    RX.r_newobj_form(ctx, repo)
-    RX.r_dict_state_direct(ctx, repo)
-    RX.r_setstate_unconditional(ctx, repo)
-    RX.r_alias_key_fresh(ctx, repo)
+    ctx.call(RR2.r_alias_key, repo)
+    ctx.call(RO.r_construct_cache, repo)
+    ctx.call(RX.r_newobj_form, repo)
+    ctx.call(RX.r_dict_state_direct, repo)
+    ctx.call(RX.r_setstate_unconditional, repo)
+    ctx.call(RX.r_alias_key_fresh, repo)
+    ctx.call(R6.r_generator_drained, repo)
+
 
 if __name__ == '__main__':
     sys.exit(report.main('C17', 'other', run))
